@@ -54,6 +54,39 @@ def find_class(name: str, default_module=None):
 
 
 OPAQUES: dict = {}
+_PARTIAL: dict = {}
+
+
+class _Stub:
+    """stands for state the contract does not describe (loggers, events, transports, timers): absorbs everything"""
+    def __call__(self, *a, **kw):
+        return self
+
+    def __getattr__(self, name):
+        if name.startswith("__") and name.endswith("__"):
+            raise AttributeError(name)
+        return self
+
+    def __await__(self):
+        return iter(())
+
+    def __bool__(self):
+        return False
+
+    def __iter__(self):
+        return iter(())
+
+
+def _partial(cls):
+    """A rebuilt object carries only the fields its sidecar declares.  For classes with a large amount of other state
+    (peer connection, receiver, transport) a subclass of the same name supplies inert stand-ins for everything else."""
+    if cls.__module__.startswith("aiortc") and cls.__name__ in ("RTCRtpReceiver", "RTCRtpSender", "RTCPeerConnection",
+                                                                "RTCSctpTransport", "RTCDtlsTransport", "RTCDataChannel"):
+        if cls not in _PARTIAL:
+            _PARTIAL[cls] = type(cls.__name__, (cls,), {"__getattr__": lambda self, n: (_ for _ in ()).throw(AttributeError(n))
+                                                        if (n.startswith("__") and n.endswith("__")) else _Stub()})
+        return _PARTIAL[cls]
+    return cls
 FIELD_TYPES: dict = {}      # class name -> {field: declared type text}, filled from the sidecars in prepare()
 
 
@@ -78,7 +111,7 @@ def decode(x, module=None):
             return getattr(builders, x["$builder"])(**{k: decode(v, module) for k, v in x.items() if k != "$builder"})
         if "$class" in x:
             cls = find_class(x["$class"], module)
-            obj = cls.__new__(cls)
+            obj = _partial(cls).__new__(_partial(cls))
             for k, v in x.items():
                 if k.startswith("$"):
                     continue
@@ -352,6 +385,9 @@ def judge(prep, inputs_json: dict, timeout: float, excl=()) -> dict:
             out = list(out)
         result = out
     except Hang:
+        if any(getattr(l, "decreases", None) == "forever" for l in c.loops.values()):
+            # a service loop (ends only by cancellation): running until the watchdog fires is its normal behaviour
+            return {"status": "ok", "result": "service loop interrupted by the watchdog"}
         return {"status": "violation", "kind": "hang", "detail": f"no return within {timeout}s"}
     except BaseException as ex:  # noqa
         raised = ex
